@@ -426,3 +426,6 @@ func (e *Engine) findInitOnlyFields() {
 		}
 	}
 }
+
+// allFunctions: every function of the loaded program (go/ssa's closure over the call graph roots).
+func (e *Engine) allFunctions() map[*ssa.Function]bool { return ssautil.AllFunctions(e.prog) }
